@@ -734,6 +734,23 @@ class NodeList(FastTypedDict):
 
     # --------------------------------------------------------------------------
     #
+    def _get_node(self, slot: Slot) -> Node:
+
+        # node indexes usually equal the position in the node list, but not
+        # for node lists which are subsets of the pilot's nodes
+        idx = slot.node_index
+        if 0 <= idx < len(self.nodes) and self.nodes[idx].index == idx:
+            return self.nodes[idx]
+
+        for node in self.nodes:
+            if node.index == idx:
+                return node
+
+        raise ValueError('invalid node index %s' % idx)
+
+
+    # --------------------------------------------------------------------------
+    #
     def find_slots(self, rr: RankRequirements, n_slots:int = 1) -> List[Slot]:
 
         self._assert_rr(rr, n_slots)
@@ -769,7 +786,7 @@ class NodeList(FastTypedDict):
         if len(slots) != n_slots:
             # free whatever we got
             for slot in slots:
-                node = self.nodes[slot.node_index]
+                node = self._get_node(slot)
                 node.deallocate_slot(slot)
             self.__last_failed_rr__ = rr
             self.__last_failed_n__  = n_slots
@@ -786,7 +803,7 @@ class NodeList(FastTypedDict):
 
         for slot in slots:
 
-            node = self.nodes[slot.node_index]
+            node = self._get_node(slot)
             node.deallocate_slot(slot)
 
         if self.__last_failed_rr__:
